@@ -1,7 +1,8 @@
 (* C07 -- compaction never changes what readers see.  Statements only. *)
 From Coq Require Import List NArith Arith Bool Sorted.
-From RT Require Import Model.Bytes Model.Records Model.Merge Model.Overlay Model.Compact
-  Model.Writer Proofs.MergeProofs Proofs.CompactProofs.
+From RT Require Import Proofs.BlockProofs Proofs.TableProofs.
+From RT Require Import Model.Bytes Model.Result Model.Records Model.Block Model.Merge Model.Overlay Model.Compact
+  Model.Writer Model.StackSeq Proofs.MergeProofs Proofs.CompactProofs Proofs.StackSeqProofs.
 Import ListNotations.
 
 (* compacting tables first..last (inclusive) of a stack: refs and reflog
@@ -39,6 +40,78 @@ Proof.
   - apply compact_ranges_ok; assumption.
 Qed.
 Print Assumptions C07_wellformed.
+
+(* ---- byte level: the stack as the Go code composes it (Model/StackSeq.v, the functions
+   tied to the real Stack on every run): merge, WRITE the merged table to bytes, READ the
+   bytes back.  zlib enters through the three hypotheses of C01. ---- *)
+
+(* one compaction of any range, whatever its outcome: both views unchanged, the stack stays
+   well-formed, a failure leaves the state alone, and tombstones are retained while older
+   tables remain beneath the range *)
+Theorem C07_bytes_compact : forall deflate inflate,
+  zlib_ok deflate inflate ->
+  (forall x n, (n < length (deflate x))%nat -> inflate (firstn n (deflate x)) = ITrunc) ->
+  (forall x, (N.of_nat (length x) < 16777216)%N -> (N.of_nat (length (deflate x)) < 1073741824)%N) ->
+  forall cfg first last st st' s,
+  cfg_ok cfg -> stack_wf cfg st -> (last < length st)%nat ->
+  write_size_ok deflate cfg (compact_table first last None (tables st)) ->
+  stack_compact deflate inflate cfg first last None st = (st', s) ->
+  stack_refs (tables st') = stack_refs (tables st) /\ stack_logs (tables st') = stack_logs (tables st) /\
+  stack_wf cfg st' /\ s <> SRejected /\ (s = SErr -> st' = st) /\
+  ((0 < first)%nat ->
+     overlay ref_key (map Compact.t_refs (tables st')) = overlay ref_key (map Compact.t_refs (tables st)) /\
+     overlay log_key (map Compact.t_logs (tables st')) = overlay log_key (map Compact.t_logs (tables st))).
+Proof. exact stack_compact_preserves. Qed.
+Print Assumptions C07_bytes_compact.
+
+(* any history of Adds (with or without auto-compaction), multi-table Additions,
+   compactions of arbitrary ranges, CompactAll and expiry, starting from the empty stack:
+   after EVERY step what a reader sees is the view of a specification that never mentions
+   tables or bytes (spec_hop: a successful Add merges its records and drops deletions, a
+   successful expiry filters the reflog, everything else -- every compaction, every refused
+   or failed operation -- leaves the view alone); and every state is well-formed.
+   hist_ok: inputs in the writer's documented domain at the then-current update index, and
+   every file written stays below 2^64 bytes. *)
+Theorem C07_bytes_history : forall deflate inflate,
+  zlib_ok deflate inflate ->
+  (forall x n, (n < length (deflate x))%nat -> inflate (firstn n (deflate x)) = ITrunc) ->
+  (forall x, (N.of_nat (length x) < 16777216)%N -> (N.of_nat (length (deflate x)) < 1073741824)%N) ->
+  forall ops cfg nc, cfg_ok cfg -> hist_ok deflate inflate cfg nc [] ops ->
+  let tr := run_hist deflate inflate cfg nc [] ops in
+  map (fun r => view_of (fst r)) tr = spec_trace cfg ([], []) (combine ops (map snd tr)) /\
+  Forall (fun r => stack_wf cfg (fst r) /\ (nc = true -> names_ok (fst r))) tr.
+Proof. exact history_view. Qed.
+Print Assumptions C07_bytes_history.
+
+(* Add at byte level: success = exactly the transaction applied (also when the following
+   auto-compaction fails), rejection / failure = no effect *)
+Theorem C07_bytes_add : forall deflate inflate,
+  zlib_ok deflate inflate ->
+  (forall x n, (n < length (deflate x))%nat -> inflate (firstn n (deflate x)) = ITrunc) ->
+  (forall x, (N.of_nat (length x) < 16777216)%N -> (N.of_nat (length (deflate x)) < 1073741824)%N) ->
+  forall cfg nc auto refs logs st st' s,
+  cfg_ok cfg -> stack_wf cfg st -> (next_index st < two64)%N ->
+  refs_ok cfg (next_index st) (next_index st) refs -> logs_ok cfg logs ->
+  (nc = true -> names_ok st) ->
+  add_size_ok deflate inflate cfg nc auto refs logs st ->
+  stack_add deflate inflate cfg nc auto refs logs st = (st', s) ->
+  stack_wf cfg st' /\ (nc = true -> names_ok st') /\
+  match s with
+  | SOk => committed cfg st refs logs st'
+  | SRejected => st' = st /\ nc = true /\
+                 ~ Refname.conflict_free (Refname.apply_tx (map r_name (stack_refs (tables st))) (tx_of refs))
+  | SErr => st' = st
+  end.
+Proof. exact stack_add_spec. Qed.
+Print Assumptions C07_bytes_add.
+
+(* non-vacuity of the byte-level theorems: with the stored-stream codec (which satisfies the
+   zlib hypotheses) a five-step history (Add with auto-compaction; Add with a deletion and a
+   reflog entry; a two-table Addition; compaction of tables 0..1; expiry) meets hist_ok and
+   computes the expected views; and the regression history on which the pinned Add reported
+   an error after its commit *)
+Example C07_bytes_ex : True.
+Proof. pose proof history_example. pose proof add_auto_failure_is_not_an_add_failure. exact I. Qed.
 
 (* non-vacuity *)
 Local Open Scope N_scope.
